@@ -239,6 +239,10 @@ package datastore
 //@   assert at "if err := r.save(); err != nil {": cachePersisted
 //@   ensures assign != nil && old(has(m.repos, *assign)) ==> result0 == nil && m.versionID == old(m.versionID) && m.repoID == old(m.repoID)
 //@   ensures assign != nil && old(has(m.repos, *assign)) ==> (forall v dvid.VersionID :: has(m.versionToUUID, v) == old(has(m.versionToUUID, v))) && (forall u dvid.UUID :: has(m.uuidToVersion, u) == old(has(m.uuidToVersion, u)) && m.uuidToVersion[u] == old(m.uuidToVersion[u]))
+// Safe publication (C11): once the repo is in m.repos other requests can read it under its own lock, so
+// its alias and description are set BEFORE that (the lockset obligations treat r as private to newRepo
+// because it is allocated here; publication is not modelled there, hence this assertion).
+//@   assert at "m.repos[uuid] = r": r.alias == alias && r.description == description
 
 // The snapshot of the parent used by the sibling-branch check and the append of the new child lie in
 // one critical section of newVersionMutex (C11: at most one new child per branch).
